@@ -389,7 +389,7 @@ MANIFEST = {
              "(= every interleaving of server/client labels and every delivery order of the bag network): mutual_exclusion (the spec's Safety), "
              "token_invariant (the strengthening invariant of DESIGN §11) and at_most_one_token, grant_only_to_waiting (a Grant is sent only to a client whose "
              "request reached the server, that was never granted before, that waits at criticalSection without lock or grant in flight, and it becomes head of q), "
-             "fifo_service (the grant sequence is a prefix of the duplicate-free sequence of Lock requests in order of receipt), assertion_free (no assert fails, "
+             "fifo_service (the grant sequence is a prefix of the duplicate-free sequence of Lock requests in order of receipt), served_at_most_once (over the whole execution no client is granted twice and every granted client's request had been received), assertion_free (no assert fails, "
              "no ill-typed action), ghost_irrelevant. Tie: the real generated locksvc.AServer/AClient bodies run under the real Run loop one attempt at a time over "
              "spec-state resources (harness/steplib); the model runs the same schedule in Coq and every post-state (network bags, hasLock, msg, q, every pc, "
              "the two history lists) and every outcome (commit / disabled / finished / assertion) is compared; an implementation-side oracle checks mutual exclusion, "
